@@ -128,8 +128,8 @@ contract("prop::C10.repeatable_rng_and_workers", params=dict(cnarr=ObjT("CopyNum
 
 # ----------------------------------------------------------------------------- sequences on shared objects
 _OPS = ["merge", "flatten", "subtract", "intersection", "subdivide", "resize", "by_arm", "by_gene", "center_all_copy",
-        "segment_none", "segment_haar", "call_threshold", "call_clonal_filters", "genemetrics", "breaks", "export_bed",
-        "export_vcf", "segmetrics", "bintest", "target", "antitarget"]
+        "segment_none", "segment_haar", "call_threshold", "call_clonal_filters", "genemetrics", "genemetrics_segs_noshift",
+        "genemetrics_segs_shift", "breaks", "export_bed", "export_vcf", "segmetrics", "bintest", "target", "antitarget"]
 
 
 def _apply(op, env):
@@ -165,6 +165,10 @@ def _apply(op, env):
         return call.do_call(segs, None, "clonal", 2, 0.8, False, True, None, env["filters"]).data
     if op == "genemetrics":
         return reports.do_genemetrics(cn, None, 0.1, 1, False, False, True)
+    if op == "genemetrics_segs_noshift":      # segment table with columns the bin table lacks (cn); sexes need no X shift
+        return reports.do_genemetrics(cn, env["called"], 0.1, 1, False, rng_sex(env), not rng_sex(env))
+    if op == "genemetrics_segs_shift":
+        return reports.do_genemetrics(cn, env["called"], 0.1, 1, False, rng_sex(env), rng_sex(env))
     if op == "breaks":
         return reports.do_breaks(cn, segs, 1)
     if op == "export_bed":
@@ -181,6 +185,10 @@ def _apply(op, env):
     if op == "antitarget":
         return antitarget.do_antitarget(ga, None, 20000, None).data
     raise KeyError(op)
+
+
+def rng_sex(env):
+    return env["male_ref"]
 
 
 def _fresh_env(seed, tier):
@@ -200,7 +208,9 @@ def _fresh_env(seed, tier):
         for _ in range(3):
             s = rng.randint(lo, hi - 1)
             rows.append((c, s, min(hi + 300000, s + rng.choice([100, 1500, 200000])), "G"))
-    return dict(cnarr=cn, segs=segs, regions=GA(rows, ("chromosome", "start", "end", "gene")), filters=["cn", "ampdel"])
+    from cnvlib import call
+    return dict(cnarr=cn, segs=segs, regions=GA(rows, ("chromosome", "start", "end", "gene")), filters=["cn", "ampdel"],
+                called=call.do_call(segs, None, "threshold", 2, None, False, True), male_ref=rng.random() < 0.5)
 
 
 def _gen_seq(rng, tier, i):
